@@ -498,7 +498,12 @@ class Fxp():
             if self.scaled:
                 self.set_val((_old_val / 2**_old_n_frac) * self.scale + self.bias)
             else:
-                self.set_val(_old_val * 2**(self.n_frac - _old_n_frac), raw=True)
+                _factor = 2**(self.n_frac - _old_n_frac)
+                if isinstance(_factor, int) and _old_val.dtype.kind in 'iu' and \
+                    max(abs(int(np.max(_old_val))), abs(int(np.min(_old_val))), 1) * _factor >= 2**63:
+                    # python integers: shifted codes (or the factor itself) don't fit in a 64 bits integer
+                    _old_val = _old_val.astype(object)
+                self.set_val(_old_val * _factor, raw=True)
         else:
             self.set_val(_old_val, raw=True)
 
@@ -856,7 +861,7 @@ class Fxp():
             if val.dtype.kind in 'iO' and val.size > 0:
                 # integer input: largest magnitude before and after scaling (python integers, no overflow)
                 _val_mag = max(abs(int(np.max(val))), abs(int(np.min(val))))
-                _val_mag = max(_val_mag, _val_mag * conv_factor)
+                _val_mag = max(_val_mag, max(_val_mag, 1) * conv_factor)
             else:
                 _val_mag = 0
 
